@@ -40,7 +40,7 @@ func (f filebufferWithSize) Sync() error {
 // the cursor when it is not at the end of the buffer
 func (f filebufferWithSize) Write(p []byte) (n int, err error) {
 	idx, size := int(f.Index), f.Buff.Len()
-	if idx < 0 || idx == size {
+	if idx < 0 || idx == size || len(p) == 0 { // Writing nothing never extends the buffer
 		return f.Buffer.Write(p)
 	}
 
